@@ -70,9 +70,10 @@ class SpecMergeError(Exception):
     `cell` classifies which impossible shape was met (stable, for witness keys).
     """
 
-    def __init__(self, cell, detail=""):
-        Exception.__init__(self, "%s %s" % (cell, detail))
+    def __init__(self, cell, path=()):
+        Exception.__init__(self, "%s at %r" % (cell, tuple(path)))
         self.cell = cell
+        self.path = tuple(path)      # where in the RESULT document the impossible merge was met
 
 
 class SpecConfig:
@@ -177,7 +178,7 @@ def _lib(cfg, trace, name):
 
 # --------------------------------------------------------------------------- node merges
 
-def _clash(l, r, mode, cfg, trace, cell):
+def _clash(l, r, mode, cfg, trace, cell, respath=()):
     """Right-hand container `r` meets a left value of another kind."""
     _ev(trace, "cell", kind(l), kind(r), mode, "clash")
     if kind(l) == "scalar":
@@ -186,7 +187,7 @@ def _clash(l, r, mode, cfg, trace, cell):
         _ev(trace, "from-code", "container-into-scalar")
     if mode in ("left", "right") and _lib(cfg, trace, "clash_short_circuit"):
         return l if mode == "left" else r
-    raise SpecMergeError(cell)
+    raise SpecMergeError(cell, respath)
 
 
 def _merge_maps(l, r, cfg, rpath, respath, trace):
@@ -282,12 +283,12 @@ def _merge_aoh(l, r, cfg, rpath, respath, trace, epath=None):
         if kind(e) != "map":
             _ev(trace, "from-code", "mixed-sequence")
             if _lib(cfg, trace, "aoh_deep_nonhash_error"):
-                raise SpecMergeError("aoh-deep/non-hash-element")
+                raise SpecMergeError("aoh-deep/non-hash-element", respath)
             out.append(e)
             continue
         if idkey is None or idkey not in e:
             # "an identity key is required in both LHS and RHS records" / [C] missing identity key
-            raise SpecMergeError("aoh-deep/missing-identity-key")
+            raise SpecMergeError("aoh-deep/missing-identity-key", respath)
         hit = None
         for j, le in enumerate(out):
             if kind(le) == "map" and idkey in le and veq(le[idkey], e[idkey]):
@@ -310,8 +311,10 @@ def _merge_seqs(l, r, cfg, rpath, respath, trace, cell, epath=None):
         mode = cfg.mode(rpath, k)
         _ev(trace, "cell", kind(l), "empty-seq", mode)
         if kind(l) != "seq":
+            if mode in ("left", "right") and _lib(cfg, trace, "clash_short_circuit"):
+                return l if mode == "left" else r
             if _lib(cfg, trace, "empty_seq_into_nonseq_error"):
-                raise SpecMergeError(cell + "/empty")
+                raise SpecMergeError(cell + "/empty", respath)
             return l                  # [C] "no change (there is nothing to add)"
         if mode == "right":
             return r                  # [A]/[O] RIGHT: "fully replace"
@@ -321,10 +324,9 @@ def _merge_seqs(l, r, cfg, rpath, respath, trace, cell, epath=None):
     if any((kind(e) == "map") != is_aoh for e in r):
         _ev(trace, "from-code", "mixed-sequence")
     if kind(l) != "seq":
-        return _clash(l, r, cfg.mode(rpath, "aoh" if is_aoh else "array"), cfg, trace, cell)
-    if len(l) > 0 and (kind(l[0]) == "map") != is_aoh and cfg.mode(rpath, "aoh") != cfg.mode(rpath, "array"):
-        # which of --arrays / --aoh governs `[1] <- [{a: 1}]` is decided by the code (right side)
-        _ev(trace, "from-code", "sequence-kind-taken-from-rhs")
+        return _clash(l, r, cfg.mode(rpath, "aoh" if is_aoh else "array"), cfg, trace, cell, respath)
+    # The RIGHT-hand sequence selects the policy: [O] speaks of "RHS Hashes ... appended to the
+    # LHS Array", [A] of "RHS Array elements ... appended to LHS Arrays".
     if is_aoh:
         return _merge_aoh(l, r, cfg, rpath, respath, trace, epath)
     return _merge_arrays(l, r, cfg, rpath, trace)
@@ -351,7 +353,7 @@ def _merge_value(l, r, cfg, rpath, respath, trace):
     if kr == "map":
         mode = cfg.mode(rpath, "hash")
         if kind(l) != "map":
-            return _clash(l, r, mode, cfg, trace, "hash-into-" + kind(l))
+            return _clash(l, r, mode, cfg, trace, "hash-into-" + kind(l), respath)
         _ev(trace, "cell", "map", "map", mode)
         if mode == "left":
             return l                  # [H] "LHS Hashes are not overwritten by RHS Hashes"
@@ -362,7 +364,7 @@ def _merge_value(l, r, cfg, rpath, respath, trace):
         return _merge_seqs(l, r, cfg, rpath, respath, trace, "array-into-" + kind(l))
     # set
     if kind(l) != "set":
-        return _clash(l, r, cfg.mode(rpath, "set"), cfg, trace, "set-into-" + kind(l))
+        return _clash(l, r, cfg.mode(rpath, "set"), cfg, trace, "set-into-" + kind(l), respath)
     return _merge_sets(l, r, cfg, rpath, trace)
 
 
@@ -375,9 +377,9 @@ def spec_merge(lhs, rhs, cfg=None, trace=None):
     """
     cfg = cfg or SpecConfig()
     if rhs is None:
-        # An empty right-hand document carries nothing to merge.  (from-code; [S]-C18
-        # counts empty documents among the inputs without saying more.)
-        _ev(trace, "from-code", "empty-rhs-document")
+        # An empty right-hand document carries nothing to merge ([S]-C18 counts empty
+        # documents among the inputs; there is no content that could override anything).
+        _ev(trace, "cell", kind(lhs), "empty", "-")
         return lhs
     if lhs is None:
         _ev(trace, "cell", "empty", kind(rhs), "-")
@@ -439,7 +441,7 @@ def spec_merge(lhs, rhs, cfg=None, trace=None):
 
 def spec_outcomes(lhs, rhs, cfg=None, merge=None):
     """Every outcome the documentation admits: list of (liberties, outcome, trace) with
-    outcome = ("ok", document) | ("error", cell).  The first entry uses no liberty."""
+    outcome = ("ok", document) | ("error", cell, path).  The first entry uses no liberty."""
     cfg = cfg or SpecConfig()
     merge = merge or spec_merge
     res = []
@@ -455,7 +457,7 @@ def spec_outcomes(lhs, rhs, cfg=None, merge=None):
         try:
             out = ("ok", merge(lhs, rhs, cfg.with_liberties(libs), tr))
         except SpecMergeError as e:
-            out = ("error", e.cell)
+            out = ("error", e.cell, e.path)
         res.append((libs, out, tr))
         for ev in tr:
             if ev[0] == "liberty" and ev[1] not in consulted:
@@ -481,6 +483,8 @@ def set_at(doc, path, value):
     if not path:
         return value
     head, rest = path[0], path[1:]
+    if doc is None:
+        doc = {}                      # a path is created below an empty document / a missing key
     if isinstance(doc, dict):
         out = dict(doc)
         out[head] = set_at(doc.get(head), rest, value)
@@ -488,6 +492,13 @@ def set_at(doc, path, value):
     out = list(doc)
     out[head] = set_at(doc[head], rest, value)
     return out
+
+
+def _relay(trace, sub, t):
+    """Events of a merge at target `t`, with result paths re-based on the whole document."""
+    if trace is not None:
+        for ev in sub:
+            trace.append((ev[0], tuple(t) + tuple(ev[1])) + tuple(ev[2:]) if ev[0] == "hash-deep" else ev)
 
 
 def spec_merge_at(lhs, rhs, cfg, targets, create=None, trace=None):
@@ -498,7 +509,6 @@ def spec_merge_at(lhs, rhs, cfg, targets, create=None, trace=None):
     targets: list of path tuples into `lhs` (disjoint subtrees).
     """
     if rhs is None:
-        _ev(trace, "from-code", "empty-rhs-document")
         return lhs
     if not targets:
         if create is None:
@@ -514,10 +524,12 @@ def spec_merge_at(lhs, rhs, cfg, targets, create=None, trace=None):
             new = rhs
             _ev(sub, "from-code", "null-target-receives-rhs")
         else:
-            new = spec_merge(old, rhs, cfg, sub)
-        if trace is not None:
-            for ev in sub:
-                trace.append((ev[0], tuple(t) + tuple(ev[1])) + tuple(ev[2:]) if ev[0] == "hash-deep" else ev)
+            try:
+                new = spec_merge(old, rhs, cfg, sub)
+            except SpecMergeError as e:
+                _relay(trace, sub, t)
+                raise SpecMergeError(e.cell, tuple(t) + e.path)
+        _relay(trace, sub, t)
         out = set_at(out, tuple(t), new)
     return out
 
@@ -527,7 +539,7 @@ def spec_merge_at(lhs, rhs, cfg, targets, create=None, trace=None):
 MULTIDOC_MODES = ("condense_all", "merge_across", "matrix_merge")
 
 
-def spec_multidoc(lhs_docs, rhs_docs, mode, cfg=None):
+def spec_multidoc(lhs_docs, rhs_docs, mode, cfg=None, trace=None):
     """[S]-C18 / [M]: the output stream for a left stream (>= 1 document) and a right stream.
 
     condense_all : fold every document of both streams, in order, into ONE result;
@@ -542,13 +554,13 @@ def spec_multidoc(lhs_docs, rhs_docs, mode, cfg=None):
     if mode == "condense_all":
         acc = lhs_docs[0]
         for d in lhs_docs[1:] + rhs_docs:
-            acc = spec_merge(acc, d, cfg)
+            acc = spec_merge(acc, d, cfg, trace)
         return [acc]
     if mode == "merge_across":
         out = []
         for i in range(max(len(lhs_docs), len(rhs_docs))):
             if i < len(lhs_docs) and i < len(rhs_docs):
-                out.append(spec_merge(lhs_docs[i], rhs_docs[i], cfg))
+                out.append(spec_merge(lhs_docs[i], rhs_docs[i], cfg, trace))
             elif i < len(lhs_docs):
                 out.append(lhs_docs[i])
             else:
@@ -558,7 +570,7 @@ def spec_multidoc(lhs_docs, rhs_docs, mode, cfg=None):
         out = []
         for l in lhs_docs:
             for r in rhs_docs:
-                l = spec_merge(l, r, cfg)
+                l = spec_merge(l, r, cfg, trace)
             out.append(l)
         return out
     raise ValueError("unknown multi-document mode %r" % (mode,))
